@@ -32,13 +32,15 @@ PROP = dict(
               "directions + issorted + median, medfilt n in {3,8}, MedianFilter orders {5,16,33} (whole and 65537-sample blocks), Pearson and "
               "Spearman in corr.large; corr: all pairs of permutations n<=5 and "
               "identity x all 5040 permutations n=7 (both sides), Pearson with 9 letter pairs (linear/cubic/exponential), Spearman, Kendall; "
-              "every sort / median / MedianFilter / medfilt case above x 11 value maps {plain, r*1e-18, 1e-300*(r+1), 0.25+r*2^-54, "
-              "-(1+r*eps), r*1e300/8, and the unit changes plain*2^k for k in {-1000,-540,-300,300,1000}}; corr.units: every pair of "
+              "every sort / median / MedianFilter / medfilt case above x 14 value maps {plain, r*1e-18, 1e-300*(r+1), 0.25+r*2^-54, "
+              "-(1+r*eps), r*1e300/8, the unit changes plain*2^k for k in {-1000,-540,-300,300,1000}, the SUBNORMAL maps r*2^-1074 and "
+              "r*2^-1060 (small integer multiples of the smallest subnormal, odd multiples and repeats) and the huge map r*2^1020 (not for "
+              "the 7 medfilt letters, whose ranks reach 48)}; median.near_dbl_max: 10 pairs whose sum exceeds DBL_MAX, observed only; corr.units: every pair of "
               "permutations n<=5 (n=6,7: identity, reversal and every 90th / 720th x-permutation x all y) x the 10 non-plain maps applied to "
               "x, to y and to both x Pearson/Spearman/Kendall; corr.large: n in {100,1000,1290,1291,1625,2000,2048,5000,20000,70000,200000} (Kendall in this grid up to 20000) x {increasing linear, decreasing "
               "linear, increasing cubic, decreasing exponential, 2 independent LCG permutation pairs} x Pearson/Spearman/Kendall; corr.kendall.big: Kendall at n = 65537 (both argument "
               "orders) and n = 70000 with x[i]=i, y[i]=(7919*i) mod n and with a strictly decreasing relation",
-        thorough="as quick with all weak orders n<=8 (545835 at n=8), all permutations n<=10 (3.6M at n=10), each x 11 value maps (n = 10, ternary k = 10 and quaternary k = 8: the 6 maps without the unit changes) and both "
+        thorough="as quick with all weak orders n<=8 (545835 at n=8), all permutations n<=10 (3.6M at n=10), each x 14 value maps (n = 10, ternary k = 10 and quaternary k = 8: the 6 maps without the unit changes) and both "
                  "directions; corr.units over every pair of permutations n<=7 (25.4M pairs at n=7 x 30 map placements x 3 coefficients); MedianFilter orders + {16,33,64}, ternary streams k<=10, quaternary streams k<=8, long streams 10^4 samples for "
                  "every order 3..64, medfilt sequences L<=8 for n 3..12, corr all pairs of permutations n<=6 (518k pairs per coefficient and letter pair) and all 25.4M pairs "
                  "of permutations of length 7 for Pearson (linear x exponential letters), Spearman and Kendall; length 8: identity, reversal and every 63rd permutation (641 x-permutations) x all "
@@ -46,7 +48,10 @@ PROP = dict(
                  "n = 70000 in both orders, n = 100000 (both letters) and n = 200000"),
     deadline=dict(quick=150, thorough=3000),
     assumptions=COMMON_ASSUME + [
-        "median of an even window is the mean of the two middle elements (MATLAB/NumPy convention; the statement says 'true median')",
+        "median of an even window is the mean of the two middle elements (MATLAB/NumPy convention; the statement says 'true median'); the "
+        "oracle is that mean computed exactly in long double and rounded once to double, which is representable whenever the two elements are "
+        "(subnormal elements included). Where the SUM of the two middle elements exceeds DBL_MAX the library's (a+b)/2 returns inf although "
+        "the median is representable: observed and counted in median.near_dbl_max, not judged (reported as a candidate finding)",
         "medfilt(x,n) window is x[j-n/2 .. j+n-1-n/2] with zeros outside (medfilt1 'zeropad' convention for odd and even n)",
         "range check 'to rounding': |corr| <= 1 + max(4 eps, value tolerance) (Pearson's moment formula returns 1 + 8.4e-15 for two "
         "collinear points, observed and reported, not judged a violation); symmetry tolerance 1e-12 as in the design; tie-free data only for corr",
